@@ -573,6 +573,12 @@ func (e *Exec) toNativeIface(v Value, rt reflect.Type) reflect.Value {
 			return set(reflect.ValueOf(fmt.Errorf("%s", x[3:])))
 		}
 	}
+	if p, isPtr := ifc.V.(*Value); isPtr && p == nil {
+		// typed nil pointer inside an interface
+		if prt, ok := e.reflectTypeOf(ifc.T); ok && prt.Kind() == reflect.Ptr {
+			return set(reflect.Zero(prt))
+		}
+	}
 	// engine value
 	if rt == rtTypesType || (rt.Kind() == reflect.Interface && rtTypesType.Implements(rt) && rt.NumMethod() > 0 && e.hasMethod(ifc.T, "Underlying")) {
 		if p, isPtr := ifc.V.(*Value); isPtr {
